@@ -5,6 +5,9 @@ error term of the n-point rule for x^(2n) (so a silently different n is visible)
 Gauss-Legendre nodes; an independent f64 Gauss-Legendre sum of f(tan t) sec^2 t for infinite limits; the double sum over
 two such rules for a quad called inside the integrand of a quad (re-entrancy), each call of a sequence against its own rule.
 Limits given as tensors of another dtype than the integrand's (float32 <-> float64, int64) are the numbers they hold.
+Complex-valued integrands (complex64 / complex128 output, polynomial with complex rational coefficients, real limits): the same
+relations with the exact rational reference applied to the real and to the imaginary part (the rule is linear over C: weights and
+abscissae are real), linearity with complex factors (incl. multiplication by 1j), complex decaying integrands on infinite intervals.
 """
 from __future__ import annotations
 
@@ -45,6 +48,8 @@ LEVEL_NOTE = "trusts fractions.Fraction arithmetic, numpy leggauss nodes, stated
 TECHNIQUE = "Hypothesis property-based testing: exact-arithmetic oracle + metamorphic relations + rule extraction"
 
 DT = {"f32": torch.float32, "f64": torch.float64}
+CDT = {"f32": torch.complex64, "f64": torch.complex128}     # complex integrand of the same precision
+K_CPLX = 4.0      # complex arithmetic: one complex multiply-add costs <= 4 real rounding errors relative to the moduli
 
 
 def poly_eval(x, coefs, dtype=None):
@@ -100,6 +105,12 @@ def limit_value(val, form, dtype, ldt=None) -> float:
     return float(torch.as_tensor(val, dtype=dtype))
 
 
+def second_coefs(case, c2_re, dtype):
+    """complex coefficients of the second polynomial of a complex case (imaginary parts exactly representable in `dtype`)"""
+    im = [float(torch.tensor(float(Fraction(p_, q_)), dtype=dtype)) for p_, q_ in case["coefs2_im"]]
+    return [complex(r_, i_) for r_, i_ in zip(c2_re, im)]
+
+
 def S_bound(coefs, M):
     return sum(abs(c) * M ** k for k, c in enumerate(coefs))
 
@@ -112,7 +123,10 @@ def run_case(case):
     eps = torch.finfo(dtype).eps
     tiny = torch.finfo(dtype).tiny      # underflow floor: outside the relative rounding model
     rel = case["rel"]
-    labels = ["rel=" + rel, "dtype=" + case["dtype"], "n=" + ("1" if n == 1 else "2-9" if n < 10 else "10-99" if n < 100 else "100+")]
+    cplx = bool(case.get("cplx"))
+    odt = CDT[case["dtype"]] if cplx else dtype       # dtype of the integrand's output = dtype of the result
+    labels = ["rel=" + rel, "dtype=" + case["dtype"], "n=" + ("1" if n == 1 else "2-9" if n < 10 else "10-99" if n < 100 else "100+"),
+              "integrand=" + ("complex" if cplx else "real")]
 
     if rel == "inf":
         return run_inf(case, labels)
@@ -128,6 +142,12 @@ def run_case(case):
     pdt = DT[case.get("pdt") or case["dtype"]]
     coefs_t = [float(torch.tensor(c, dtype=pdt)) for c in coefs]
     coefs_fr = [Fraction(c) for c in coefs_t]
+    coefs_fi = None
+    if cplx:
+        # complex coefficients c_k = re_k + i im_k (both exactly representable in the real dtype of the complex dtype)
+        im_t = [float(torch.tensor(float(Fraction(p_, q_)), dtype=dtype)) for p_, q_ in case["coefs_im"]]
+        coefs_fi = [Fraction(c) for c in im_t]
+        coefs_t = [complex(r_, i_) for r_, i_ in zip(coefs_t, im_t)]
     deg = len(coefs) - 1
     xldt, xudt = case.get("xldt"), case.get("xudt")
     xlv = limit_value(case["xl"], case["xlform"], dtype, xldt)
@@ -144,17 +164,36 @@ def run_case(case):
     width = abs(xuv - xlv)
 
     calls = []
-    ctens = torch.tensor(coefs_t, dtype=pdt)
+    ctens = torch.tensor(coefs_t, dtype=odt if cplx else pdt)
+    kc = K_CPLX if cplx else 1.0
 
     def f(x, c):
-        # the probe call passes xl as the caller gave it (maybe a number, maybe a tensor of another dtype)
-        x = torch.as_tensor(x).to(dtype) if isinstance(x, torch.Tensor) else torch.as_tensor(x, dtype=dtype)
+        # the probe call passes xl as the caller gave it (maybe a number, maybe a tensor of another dtype); a complex-valued
+        # integrand evaluates the polynomial in its complex dtype (quad hands it the abscissae in that dtype)
+        x = torch.as_tensor(x).to(odt) if isinstance(x, torch.Tensor) else torch.as_tensor(x, dtype=odt)
         calls.append(x.detach().clone())
-        return poly_eval(x, [ck.to(dtype) for ck in c], dtype)
+        return poly_eval(x, [ck.to(odt) for ck in c], odt)
 
     def tol_for(cfs, d=None):
         d = len(cfs) - 1 if d is None else d
-        return (20 * (d + 2) + 4 * n) * eps * S_bound(cfs, M) * width + 1e3 * tiny * (1 + S_bound(cfs, M))
+        return kc * ((20 * (d + 2) + 4 * n) * eps * S_bound(cfs, M) * width + 1e3 * tiny * (1 + S_bound(cfs, M)))
+
+    def val(r):
+        r0 = r.reshape(-1)[0]
+        return complex(r0) if cplx else float(r0)
+
+    def exact_ref(fr, fi=None):
+        re_ = float(exact_integral(fr, a, b))
+        return complex(re_, float(exact_integral(fi, a, b))) if cplx else re_
+
+    def typecheck(res, what="quad"):
+        if not isinstance(res, torch.Tensor):
+            return violation("type", "%s returned %r" % (what, type(res)), labels)
+        if res.numel() != 1:
+            return violation("shape", "result of a scalar integrand has shape %s" % (tuple(res.shape),), labels)
+        if res.dtype != odt:
+            return violation("dtype", "result dtype %s, expected %s" % (res.dtype, odt), labels)
+        return None
 
     nontrivial = n >= 2 and deg >= 2 and xlv != xuv
     Mall = max(M, abs(float(case.get("xm", 0.0))))
@@ -185,19 +224,19 @@ def run_case(case):
 
     if rel in ("exact", "nodes"):
         res = quad(f, xl, xu, params=(ctens,), n=n)
-        if not isinstance(res, torch.Tensor):
-            return violation("type", "quad returned %r" % type(res))
-        if res.numel() != 1:
-            return violation("shape", "result of a scalar integrand has shape %s" % (tuple(res.shape),))
-        if res.dtype != dtype:
-            return violation("dtype", "result dtype %s, expected %s" % (res.dtype, dtype))
-        ref = float(exact_integral(coefs_fr, a, b))
-        err = abs(float(res.reshape(-1)[0]) - ref)
+        bad = typecheck(res)
+        if bad:
+            return bad
+        ref = exact_ref(coefs_fr, coefs_fi)
+        err = abs(val(res) - ref)
         if not err <= tol_for(coefs_t):
             return violation("not_exact", "n=%d deg=%d [%r,%r]: quad=%r exact=%r err=%.3e tol=%.3e" % (
-                n, deg, xlv, xuv, float(res.reshape(-1)[0]), ref, err, tol_for(coefs_t)))
+                n, deg, xlv, xuv, val(res), ref, err, tol_for(coefs_t)), labels)
         # evaluation points: n (+ one probe at xl) and they are the mapped Gauss-Legendre nodes
-        xs = sorted(float(c.reshape(-1)[0]) for c in calls[1:])
+        # (a complex integrand is handed real abscissae in its complex dtype: imaginary part zero)
+        if cplx and any(abs(float(c.reshape(-1)[0].imag)) > 0 for c in calls[1:]):
+            return violation("nodes", "abscissae of a complex integrand with real limits have a non-zero imaginary part", labels)
+        xs = sorted(float(c.reshape(-1)[0].real if cplx else c.reshape(-1)[0]) for c in calls[1:])
         if len(calls) != n + 1:
             return violation("neval", "integrand evaluated %d times, expected n+1=%d" % (len(calls), n + 1))
         nodes, _ = np.polynomial.legendre.leggauss(n)
@@ -231,24 +270,43 @@ def run_case(case):
         c2_f = [Fraction(p, q) for p, q in case["coefs2"]]
         c2 = [float(torch.tensor(float(c), dtype=dtype)) for c in c2_f]
         al, be = case["alpha"], case["beta"]
+        if cplx:
+            c2 = second_coefs(case, c2, dtype)
+            # complex factors (the rule is linear over C): alpha_c / beta_c = [re, im], e.g. [0, 1] = multiplication by 1j
+            al, be = complex(*case["alpha_c"]), complex(*case["beta_c"])
+            labels.append("alpha=%s" % ("1j" if al == 1j else "imag" if al.real == 0 else "real" if al.imag == 0 else "complex"))
         L = max(len(coefs_t), len(c2))
         p1 = coefs_t + [0.0] * (L - len(coefs_t))
         p2 = c2 + [0.0] * (L - len(c2))
-        r1 = quad(lambda x: poly_eval(x, p1, dtype), xl, xu, n=n)
-        r2 = quad(lambda x: poly_eval(x, p2, dtype), xl, xu, n=n)
-        r12 = quad(lambda x: al * poly_eval(x, p1, dtype) + be * poly_eval(x, p2, dtype), xl, xu, n=n)
+        r1 = quad(lambda x: poly_eval(x, p1, odt), xl, xu, n=n)
+        r2 = quad(lambda x: poly_eval(x, p2, odt), xl, xu, n=n)
+        r12 = quad(lambda x: al * poly_eval(x, p1, odt) + be * poly_eval(x, p2, odt), xl, xu, n=n)
+        for r_ in (r1, r2, r12):
+            bad = typecheck(r_)
+            if bad:
+                return bad
         tol = (abs(al) + 1) * tol_for(p1) + (abs(be) + 1) * tol_for(p2)
-        err = abs(float(r12.reshape(-1)[0]) - (al * float(r1.reshape(-1)[0]) + be * float(r2.reshape(-1)[0])))
+        err = abs(val(r12) - (al * val(r1) + be * val(r2)))
         if not err <= 2 * tol:
-            return violation("linearity", "err=%.3e tol=%.3e" % (err, 2 * tol))
+            return violation("linearity", "quad(%r*f1+%r*f2)=%r but %r*quad(f1)+%r*quad(f2)=%r: err=%.3e tol=%.3e" % (
+                al, be, val(r12), al, be, al * val(r1) + be * val(r2), err, 2 * tol), labels)
         return ok(labels, nontrivial)
 
     if rel == "swap":
         r1 = quad(f, xl, xu, params=(ctens,), n=n)
         r2 = quad(f, xu, xl, params=(ctens,), n=n)
-        err = abs(float(r1.reshape(-1)[0]) + float(r2.reshape(-1)[0]))
+        err = abs(val(r1) + val(r2))
         if not err <= 2 * tol_for(coefs_t):
-            return violation("swap", "int_a^b + int_b^a = %.3e (tol %.3e)" % (err, 2 * tol_for(coefs_t)))
+            return violation("swap", "int_a^b + int_b^a = %.3e (tol %.3e)" % (err, 2 * tol_for(coefs_t)), labels)
+        if cplx:
+            # both orientations against the exact integral, real and imaginary part
+            ref = exact_ref(coefs_fr, coefs_fi)
+            for r_, rf, nm in ((r1, ref, "int_a^b"), (r2, -ref, "int_b^a")):
+                bad = typecheck(r_)
+                if bad:
+                    return bad
+                if not abs(val(r_) - rf) <= tol_for(coefs_t):
+                    return violation("swap_exact", "%s of a complex polynomial: quad=%r exact=%r (tol %.3e)" % (nm, val(r_), rf, tol_for(coefs_t)), labels)
         return ok(labels, nontrivial)
 
     if rel == "additive":
@@ -259,44 +317,62 @@ def run_case(case):
             xmv = limit_value(case["xm"], "t0", dtype, xldt)
         M2 = max(M, abs(xmv))
         w2 = abs(xmv - xlv) + abs(xuv - xmv)
-        tol = (20 * (deg + 2) + 4 * n) * eps * S_bound(coefs_t, M2) * (w2 + width) + 1e3 * tiny * (1 + S_bound(coefs_t, M2))
+        tol = kc * ((20 * (deg + 2) + 4 * n) * eps * S_bound(coefs_t, M2) * (w2 + width) + 1e3 * tiny * (1 + S_bound(coefs_t, M2)))
         r = quad(f, xl, xu, params=(ctens,), n=n)
         r1 = quad(f, xl, xm, params=(ctens,), n=n)
         r2 = quad(f, xm, xu, params=(ctens,), n=n)
-        err = abs(float(r.reshape(-1)[0]) - float(r1.reshape(-1)[0]) - float(r2.reshape(-1)[0]))
+        err = abs(val(r) - val(r1) - val(r2))
         if not err <= tol:
-            return violation("additivity", "err=%.3e tol=%.3e" % (err, tol))
+            return violation("additivity", "err=%.3e tol=%.3e" % (err, tol), labels)
+        if cplx:
+            # the three pieces against their exact integrals, real and imaginary part
+            am, refs = Fraction(xmv), []
+            for lo_, hi_ in ((a, b), (a, am), (am, b)):
+                refs.append(complex(float(exact_integral(coefs_fr, lo_, hi_)), float(exact_integral(coefs_fi, lo_, hi_))))
+            for r_, rf in zip((r, r1, r2), refs):
+                bad = typecheck(r_)
+                if bad:
+                    return bad
+                if not abs(val(r_) - rf) <= tol:
+                    return violation("additive_exact", "piece of a complex polynomial: quad=%r exact=%r (tol %.3e)" % (val(r_), rf, tol), labels)
         return ok(labels, nontrivial)
 
     if rel in ("tuple", "tensor"):
         c2_f = [Fraction(p, q) for p, q in case["coefs2"]]
         c2 = [float(torch.tensor(float(c), dtype=dtype)) for c in c2_f]
-        ref1 = float(exact_integral(coefs_fr, a, b))
+        ref1 = exact_ref(coefs_fr, coefs_fi)
         ref2 = float(exact_integral([Fraction(c) for c in c2], a, b))
+        if cplx:
+            c2 = second_coefs(case, c2, dtype)
+            ref2 = complex(ref2, float(exact_integral([Fraction(c.imag) for c in c2], a, b)))
         if rel == "tuple":
             shp = tuple(case["shape"])
 
             def ft(x):
-                y1 = poly_eval(x, coefs_t, dtype)
-                y2 = poly_eval(x, c2, dtype)
-                return y1.reshape(-1)[0] * torch.ones(shp, dtype=dtype), y2, (y1 - y2).reshape(-1)[0] * torch.ones((2,), dtype=dtype)
+                y1 = poly_eval(x, coefs_t, odt)
+                y2 = poly_eval(x, c2, odt)
+                return y1.reshape(-1)[0] * torch.ones(shp, dtype=odt), y2, (y1 - y2).reshape(-1)[0] * torch.ones((2,), dtype=odt)
             res = quad(ft, xl, xu, n=n)
             if not isinstance(res, (tuple, list)) or len(res) != 3:
-                return violation("tuple_out", "expected a 3-tuple, got %r" % (type(res),))
+                return violation("tuple_out", "expected a 3-tuple, got %r" % (type(res),), labels)
             if tuple(res[0].shape) != shp or tuple(res[2].shape) != (2,):
-                return violation("tuple_shape", "component shapes %s" % [tuple(r.shape) for r in res])
+                return violation("tuple_shape", "component shapes %s" % [tuple(r.shape) for r in res], labels)
+            if cplx and any(r_.dtype != odt for r_ in res):
+                return violation("dtype", "component dtypes %s of a %s tuple-valued integrand" % ([r_.dtype for r_ in res], odt), labels)
             vals = [(res[0], ref1, tol_for(coefs_t)), (res[1], ref2, tol_for(c2)),
                     (res[2], ref1 - ref2, tol_for(coefs_t) + tol_for(c2))]
         else:
             def fT(x):
-                return torch.stack([poly_eval(x, coefs_t, dtype).reshape(-1)[0], poly_eval(x, c2, dtype).reshape(-1)[0]]).reshape(2, 1)
+                return torch.stack([poly_eval(x, coefs_t, odt).reshape(-1)[0], poly_eval(x, c2, odt).reshape(-1)[0]]).reshape(2, 1)
             res = quad(fT, xl, xu, n=n)
             if tuple(res.shape) != (2, 1):
-                return violation("tensor_shape", "shape %s" % (tuple(res.shape),))
+                return violation("tensor_shape", "shape %s" % (tuple(res.shape),), labels)
+            if cplx and res.dtype != odt:
+                return violation("dtype", "result dtype %s of a %s tensor-valued integrand" % (res.dtype, odt), labels)
             vals = [(res[0], ref1, tol_for(coefs_t)), (res[1], ref2, tol_for(c2))]
         for r, ref, tol in vals:
             if not bool(((r.reshape(-1) - ref).abs() <= tol).all()):
-                return violation("component", "component value %r, exact %r, tol %.3e" % (r.reshape(-1).tolist(), ref, tol))
+                return violation("component", "component value %r, exact %r, tol %.3e" % (r.reshape(-1).tolist(), ref, tol), labels)
         return ok(labels, nontrivial)
 
     raise ValueError(rel)
@@ -333,26 +409,40 @@ def ref_rule(n, xlv, xuv):
     return x, torch.tensor(w * 0.5 * (xuv - xlv), dtype=torch.float64)
 
 
-def fam1(fam, a, p):
+def fam1(fam, a, p, q=None, prec="f64"):
+    """decaying integrands; with q (complex-valued variant, evaluated in the complex dtype of precision `prec`) multiplied by
+    the bounded-or-polynomial complex factor 1 + i q x (gauss, exp) / 1 + i q x/(1+x^2) (lorentz): still absolutely integrable"""
+    wdt = torch.float64 if q is None else CDT[prec]
+
     def f(x):
-        x = torch.as_tensor(x).to(torch.float64)
+        x = torch.as_tensor(x).to(wdt)
         if fam == "gauss":
-            return torch.exp(-a * x * x) * (1 + p * x * x)
-        if fam == "lorentz":
-            return 1.0 / (1 + a * x * x) ** (1 + p)
-        if fam == "exp":
-            return torch.exp(-a * torch.abs(x)) * (1 + p * torch.abs(x))
-        raise ValueError(fam)
+            y = torch.exp(-a * x * x) * (1 + p * x * x)
+        elif fam == "lorentz":
+            y = 1.0 / (1 + a * x * x) ** (1 + p)
+        elif fam == "exp":
+            ax = torch.abs(x) if q is None else torch.abs(x.real)      # x is real (zero imaginary part) in a complex dtype
+            y = torch.exp(-a * ax) * (1 + p * ax)
+        else:
+            raise ValueError(fam)
+        if q is not None:
+            y = y * ((1 + 1j * q * x / (1 + x * x)) if fam == "lorentz" else (1 + 1j * q * x))
+        return y
     return f
 
 
 def one_call(sub):
     """one quad call on a decaying integrand (finite, half- or doubly-infinite interval): (value, reference, scale)"""
     from xitorch.integrate import quad
-    f = fam1(sub["fam"], sub["a"], sub["p"])
+    q = sub.get("q")
+    f = fam1(sub["fam"], sub["a"], sub["p"], q, sub.get("prec", "f64"))
     xlv, xuv = _endval(sub["xl"]), _endval(sub["xu"])
     res = quad(f, _mk_end(xlv, sub["xlform"], sub.get("ldt")), _mk_end(xuv, sub.get("xuform", sub["xlform"]), sub.get("ldt")), n=sub["n"])
     xs, wt = ref_rule(sub["n"], xlv, xuv)
+    if q is not None:
+        # complex-valued: the reference sum is evaluated in complex128 on the real float64 abscissae
+        terms = wt * fam1(sub["fam"], sub["a"], sub["p"], q, "f64")(xs)
+        return res, complex(terms.sum()), float(terms.abs().sum()) + 1e-300
     terms = wt * f(xs)
     return res, float(terms.sum()), float(terms.abs().sum()) + 1e-300
 
@@ -363,6 +453,9 @@ def run_inf(case, labels):
     inf = INF
     xlv, xuv = _endval(case["xl"]), _endval(case["xu"])
     res, ref, scale = one_call(case)
+    q = case.get("q")
+    if q is not None:
+        return run_inf_complex(case, labels, res, ref, scale)
     if res.dtype != torch.float64:
         return violation("dtype", "result dtype %s of a float64 integrand (limits %s/%s)" % (res.dtype, case["xlform"], case.get("ldt")), labels)
     got = float(res.reshape(-1)[0])
@@ -380,6 +473,38 @@ def run_inf(case, labels):
     if closed is not None and abs(got - closed) > 2e-5 * abs(closed):
         return violation("inf_closed_form", "fam=%s n=%d: quad=%r closed form=%r" % (fam, n, got, closed))
     labels = labels + ["fam=" + fam, "closed" if closed is not None else "noclosed", "ldt=%s" % (case.get("ldt") or "same")]
+    return ok(labels, True)
+
+
+def run_inf_complex(case, labels, res, ref, scale):
+    """complex-valued decaying integrand g(x)(1 + i q h(x)) on a (half-)infinite interval with real limits: the complex result
+    equals the tan-substituted rule applied to real and imaginary part (reference: complex128 sum over numpy's rule), and the
+    closed forms where they exist (gauss: Re = sqrt(pi/a)(1+p/2a), Im = 0 on the whole line, q(1/(2a) + p/(2a^2)) from 0)."""
+    n, fam, a, p, q = case["n"], case["fam"], case["a"], case["p"], case["q"]
+    prec = case.get("prec", "f64")
+    odt = CDT[prec]
+    eps = torch.finfo(DT[prec]).eps
+    xlv, xuv = _endval(case["xl"]), _endval(case["xu"])
+    labels = labels + ["fam=" + fam, "integrand=complex", "prec=" + prec, "ldt=%s" % (case.get("ldt") or "same")]
+    if not isinstance(res, torch.Tensor) or res.dtype != odt or res.numel() != 1:
+        return violation("dtype", "complex integrand (%s) on [%r,%r]: quad returned dtype %s shape %s" % (
+            odt, xlv, xuv, getattr(res, "dtype", type(res)), tuple(getattr(res, "shape", ()))), labels)
+    got = complex(res.reshape(-1)[0])
+    tol = K_CPLX * K_RULE * eps * scale
+    if not abs(got - ref) <= tol:
+        return violation("inf_rule", "complex fam=%s q=%r [%r,%r] n=%d %s: quad=%r, tan-substituted rule=%r (tol %.2e)" % (
+            fam, q, xlv, xuv, n, prec, got, ref, tol), labels)
+    closed = None
+    if n >= 100 and a >= 0.5 and fam == "gauss":
+        full = (xlv == -INF and xuv == INF)
+        half = (xlv == 0 and xuv == INF)
+        if full or half:
+            re_ = math.sqrt(math.pi / a) * (1 + p / (2 * a)) * (1 if full else 0.5)
+            im_ = 0.0 if full else q * (1 / (2 * a) + p / (2 * a * a))
+            closed = complex(re_, im_)
+    if closed is not None and abs(got - closed) > 2e-5 * abs(closed) + tol:
+        return violation("inf_closed_form", "complex fam=%s n=%d: quad=%r closed form=%r" % (fam, n, got, closed), labels)
+    labels.append("closed" if closed is not None else "noclosed")
     return ok(labels, True)
 
 
@@ -538,6 +663,12 @@ def case_st(draw, tier="quick"):
         n = draw(st.one_of(st.integers(2, 40), st.sampled_from([100, 150, 200])))
         sub = draw(_sub_st(infinite=True))
         sub.update({"rel": rel, "n": n, "dtype": "f64"})
+        if draw(st.integers(0, 2)) == 0:
+            # complex-valued decaying integrand (complex128, or complex64 with float32 limits when they are tensors)
+            sub["q"] = draw(st.sampled_from([2.0, 1.0, -0.5, 0.0]))
+            sub["prec"] = draw(st.sampled_from(["f64", "f64", "f32"]))
+            if sub["prec"] == "f32":
+                sub["n"] = min(n, 40)
         return sub
     dtype = draw(st.sampled_from(["f64", "f64", "f32"]))
     if rel == "errterm":
@@ -566,7 +697,12 @@ def case_st(draw, tier="quick"):
                 case[nm] = _limit(draw, "int", deg)
             if ldt:
                 case[nm + "dt"] = ldt
-    if rel in ("exact", "nodes", "swap", "additive") and dtype == "f64" and draw(st.integers(0, 3)) == 0:
+    # complex-valued integrand (complex64 / complex128 output, complex rational coefficients, real limits in every form above)
+    cplx = rel in ("exact", "nodes", "linear", "swap", "additive", "tuple", "tensor") and draw(st.integers(0, 3)) == 0
+    if cplx:
+        case["cplx"] = True
+        case["coefs_im"] = [list(draw(_rat)) for _ in range(deg + 1)]
+    if not cplx and rel in ("exact", "nodes", "swap", "additive") and dtype == "f64" and draw(st.integers(0, 3)) == 0:
         case["pdt"] = "f32"
     if rel == "stored":
         case["stored"] = draw(st.sampled_from(["param", "view", "reshape", "index"]))
@@ -576,6 +712,10 @@ def case_st(draw, tier="quick"):
         case["alpha"] = draw(st.sampled_from([1.0, -2.0, 0.5, 3.0]))
         case["beta"] = draw(st.sampled_from([1.0, -1.0, 0.25, 0.0]))
         case["shape"] = draw(st.sampled_from([[], [1], [2], [2, 3]]))
+        if cplx:
+            case["coefs2_im"] = [list(draw(_rat)) for _ in range(d2 + 1)]
+            case["alpha_c"] = draw(st.sampled_from([[0.0, 1.0], [0.0, 1.0], [1.0, 0.0], [0.5, -2.0], [0.0, -0.5]]))
+            case["beta_c"] = draw(st.sampled_from([[1.0, 0.0], [0.0, 0.0], [0.0, 1.0], [-1.0, 0.25]]))
     if rel == "additive":
         case["xm"] = _limit(draw, "float", deg)
     return case
